@@ -377,4 +377,14 @@ def _region_negstep_start_below(case):
     return False
 
 
-REGIONS = {"negstep_start_below_minus_d": _region_negstep_start_below}
+def _region_advanced_separated(case):
+    """An integer (or tensor scalar) index and a 1-D tensor index with a slice between them: NumPy treats both as advanced indices that are
+    not adjacent and moves the broadcast dimension to the FRONT of the result; the translation indexes axis by axis (outer indexing)."""
+    kinds = [c[0] for c in case["comps"]]
+    adv = [i for i, k in enumerate(kinds) if k in ("int", "tscalar", "tvec")]
+    if not any(kinds[i] == "tvec" for i in adv) or len(adv) < 2:
+        return False
+    return any(kinds[j] in ("slice", "tslice") for a, b in zip(adv, adv[1:]) for j in range(a + 1, b))
+
+
+REGIONS = {"negstep_start_below_minus_d": _region_negstep_start_below, "advanced_indices_separated_by_slice": _region_advanced_separated}
